@@ -960,7 +960,7 @@ class CollapseCollector(WrappingCollector):
         for sub_docnum in child.matches():
             # Collapsing category key
             ckey = keyer.key_to_name(keyer.key_for(matcher, sub_docnum))
-            if not ckey:
+            if ckey is None or ckey == "" or ckey == b"":
                 # If the document isn't in a collapsing category, just add it
                 child.collect(sub_docnum)
             else:
